@@ -126,7 +126,7 @@ def entry_points(good_schema, cfg, bad_schema, probe):
 
 def run(ctx):
     thorough = ctx["tier"] == "thorough"
-    n = 4000 if thorough else 220
+    n = 4000 if thorough else 220 * ctx.get('scale', 1)
     rng = random.Random(ctx["seed"] + 4)
     g = Gen(ctx["seed"] + 40, normalization=True, nested_bias=True)
     violations, samples = [], []
